@@ -1353,7 +1353,7 @@ func init() {
 	gens["C03"] = func(o genOpts) error {
 		st := newWorldStats()
 		labels := map[int]string{}
-		positions := []string{"invocation", "proof1", "proof2", "proof3", "proof4", "attestation", "attest-parent", "resolver-proof", "proof1-twin", "proof2-twin", "proof1-twin-noexp", "proof2-twin-noexp", "attestation-twin"}
+		positions := []string{"invocation", "proof1", "proof2", "proof3", "proof4", "attestation", "attest-parent", "resolver-proof", "proof1-twin", "proof2-twin", "proof1-twin-noexp", "proof2-twin-noexp", "attestation-twin", "proof2-stale-branch"}
 		expOffs := []int{-9, -8, -7, -100000, -1, 0, 1, 100000} // -9 unset, -8 / -7 the absolute values 0 and 1
 		nbfOffs := []int{-9, -100000, -1, 0, 1, 100000}         // -9: unset
 		var todo []timedCase
@@ -1581,6 +1581,31 @@ func timedWorld(seed int64, id int, tc timedCase, t int) (*World, string) {
 		for _, sp := range specs {
 			if sp == citing {
 				out = append(out, &tw)
+			}
+			out = append(out, sp)
+		}
+		w.Specs = out
+	case "proof2-stale-branch":
+		// the renewed delegation kept next to the old one: the invocation cites FIRST a copy of its proof that is itself
+		// inside its window but stands on a long-expired copy of the next token up, THEN the genuine proof whose parent
+		// carries the window under test — the dead branch must not decide for the live one
+		p1, p2 := specs[depth-1], specs[depth-2]
+		apply(p2)
+		old2 := *p2
+		past := t - 100000
+		old2.Name, old2.Nonce, old2.Exp, old2.Nbf = p2.Name+"_old", "old", &past, 0
+		old2.Caps = append([]CapSpec{}, p2.Caps...)
+		old2.Proofs = append([]ProofRef{}, p2.Proofs...)
+		old1 := *p1
+		old1.Name, old1.Nonce = p1.Name+"_old", "old"
+		old1.Caps = append([]CapSpec{}, p1.Caps...)
+		old1.Proofs = []ProofRef{{Tok: old2.Name, Inline: true}}
+		inv := specs[depth]
+		inv.Proofs = append([]ProofRef{{Tok: old1.Name, Inline: true}}, inv.Proofs...)
+		var out []*TokSpec
+		for _, sp := range specs {
+			if sp == p1 {
+				out = append(out, &old2, &old1)
 			}
 			out = append(out, sp)
 		}
